@@ -17,6 +17,7 @@ From TS Require Import Spec.C10SwGrammar.
 From TS Require Proofs.C10_SWGrammarTok Proofs.C10_SWGrammarParse Proofs.C10_SWGrammarDecl Proofs.C10_SWGrammar Proofs.C10_SWGrammarFile.
 From TS Require Import Spec.C10ScGrammar.
 From TS Require Proofs.C10_SCGrammarTok Proofs.C10_SCGrammarParse Proofs.C10_SCGrammar Proofs.C10_SCGrammarFile.
+From TS Require Proofs.C10_GOGrammarTagged Proofs.C10_GOGrammarIR Proofs.C10_GOGrammarIR2.
 From TS Require Props.C10.
 
 Goal forall (cfg : c10_lexcfg) (t : str), c10_balanced cfg t = true ->
@@ -588,3 +589,51 @@ Goal exists text, dom_C10 CSC Proofs.C10_SCGrammarFile.d_prog = true /\
     contains_sub (lit "x: String = _") text = true /\ c10_sc_recognise text = None.
 Proof. exact Props.C10.C10_scala_default_rejected. Qed.
 Print Assumptions Props.C10.C10_scala_default_rejected.
+Goal forall d : go_decl, Proofs.C10_GOGrammar.c10_gog_decl_ok d ->
+    exists tds : list (list c10_gtok),
+      Proofs.C10_GOGrammarSemi.CSeg false (go_render_decl d) (Proofs.C10_GOGrammarParse.decls_toks tds) false /\
+      Forall Proofs.C10_GOGrammarParse.DeclToks tds /\ (1 <= List.length tds)%nat.
+Proof. exact Props.C10.C10_go_decl_layout_grammar. Qed.
+Print Assumptions Props.C10.C10_go_decl_layout_grammar.
+Goal forall (nv : bool) (version package : str) (imports : list str) (ds : list go_decl),
+    Proofs.C10Lex.c10_line_ok version = true -> Proofs.C10_GOGrammarSemi.c10_go_name_ok package = true ->
+    forallb c10_instr_ok imports = true -> Forall Proofs.C10_GOGrammar.c10_gog_decl_ok ds ->
+    exists n : nat,
+      c10_go_recognise (Proofs.C10_GOGrammarFile.go_header nv version package ++ go_write_all_imports imports ++
+                        List.concat (map go_render_decl ds)) = Some n /\ (List.length ds <= n)%nat.
+Proof. exact Props.C10.C10_go_layout_grammar. Qed.
+Print Assumptions Props.C10.C10_go_layout_grammar.
+Goal forall (uc : unicode) (cfg : go_config) (pd : parsed) (text : str),
+    unicode_ok uc -> Proofs.C10_GOFile.c10_go_cfg_ok cfg = true -> Proofs.C10_GOGrammarIR.c10_gog_cfg_ok cfg ->
+    dom_C10 CGO pd = true -> Proofs.C10_GOGrammarIR.c10_gog_dom pd ->
+    go_generate uc cfg pd = Ok text ->
+    exists n : nat, c10_go_recognise text = Some n /\ (List.length (items_of pd) <= n)%nat.
+Proof. exact Props.C10.C10_grammar_go_partial. Qed.
+Print Assumptions Props.C10.C10_grammar_go_partial.
+Goal unicode_ok uc_exec /\ Proofs.C10_GOFile.c10_go_cfg_ok Proofs.C10_GOGrammarFile.gg_cfg = true /\
+  Proofs.C10_GOGrammarIR.c10_gog_cfg_ok Proofs.C10_GOGrammarFile.gg_cfg /\ dom_C10 CGO Proofs.C10_GOGrammarIR.gi_prog = true /\
+  Proofs.C10_GOGrammarIR.c10_gog_dom Proofs.C10_GOGrammarIR.gi_prog /\
+  go_generate uc_exec Proofs.C10_GOGrammarFile.gg_cfg Proofs.C10_GOGrammarIR.gi_prog = Ok Proofs.C10_GOGrammarIR.gi_text /\
+  c10_go_recognise Proofs.C10_GOGrammarIR.gi_text = Some 6%nat /\
+  contains_sub (lit "type Person[T any, U any] struct {") Proofs.C10_GOGrammarIR.gi_text = true /\
+  contains_sub (lit "ColorDarkBlue Color = ""dark-blue""") Proofs.C10_GOGrammarIR.gi_text = true.
+Proof. exact Props.C10.C10_grammar_go_partial_witness. Qed.
+Print Assumptions Props.C10.C10_grammar_go_partial_witness.
+Goal forall (uc : unicode) (cfg : go_config) (pd : parsed) (text : str),
+    unicode_ok uc -> Proofs.C10_GOFile.c10_go_cfg_ok cfg = true -> Proofs.C10_GOGrammarIR.c10_gog_cfg_ok cfg ->
+    dom_C10 CGO pd = true -> Proofs.C10_GOGrammarIR2.c10_gog_dom2 pd ->
+    go_generate uc cfg pd = Ok text ->
+    exists n : nat, c10_go_recognise text = Some n /\ (List.length (items_of pd) <= n)%nat.
+Proof. exact Props.C10.C10_grammar_go. Qed.
+Print Assumptions Props.C10.C10_grammar_go.
+Goal unicode_ok uc_exec /\ Proofs.C10_GOFile.c10_go_cfg_ok Proofs.C10_GOGrammarFile.gg_cfg = true /\
+  Proofs.C10_GOGrammarIR.c10_gog_cfg_ok Proofs.C10_GOGrammarFile.gg_cfg /\ dom_C10 CGO Proofs.C10_GOGrammarFile.gg_prog = true /\
+  Proofs.C10_GOGrammarIR2.c10_gog_dom2 Proofs.C10_GOGrammarFile.gg_prog /\
+  go_generate uc_exec Proofs.C10_GOGrammarFile.gg_cfg Proofs.C10_GOGrammarFile.gg_prog = Ok Proofs.C10_GOGrammarFile.gg_text /\
+  c10_go_recognise Proofs.C10_GOGrammarFile.gg_text = Some 19%nat.
+Proof. exact Props.C10.C10_grammar_go_in_domain. Qed.
+Print Assumptions Props.C10.C10_grammar_go_in_domain.
+Goal exists cfg pd text, dom_C10 CGO pd = true /\ known_C10 CGO [] pd = [] /\ known_C10_go_grammar pd = [] /\
+    go_generate uc_exec cfg pd = Ok text /\ contains_sub (lit "type interface{}") text = true /\ c10_go_recognise text = None.
+Proof. exact Props.C10.C10_go_keyword_content_key_refuted. Qed.
+Print Assumptions Props.C10.C10_go_keyword_content_key_refuted.
